@@ -220,8 +220,39 @@ func FieldOfValue(v ssa.Value) (FieldRef, bool) {
 
 // Is reports whether the field reference is Struct.Name of the given package-qualified struct.
 func (f FieldRef) Is(pkgpath, typ, field string) bool {
-	return f.Name == field && f.Struct != nil && f.Struct.Obj().Pkg() != nil &&
-		f.Struct.Obj().Pkg().Path() == pkgpath && f.Struct.Obj().Name() == typ
+	if f.Name != field || f.Struct == nil || f.Struct.Obj().Pkg() == nil || f.Struct.Obj().Pkg().Path() != pkgpath {
+		return false
+	}
+	if f.Struct.Obj().Name() == typ {
+		return true
+	}
+	// a field of a struct embedded in typ is a (promoted) field of typ
+	outer, _ := f.Struct.Obj().Pkg().Scope().Lookup(typ).(*types.TypeName)
+	if outer == nil {
+		return false
+	}
+	return embeds(outer.Type(), f.Struct, 3)
+}
+
+func embeds(outer types.Type, inner *types.Named, depth int) bool {
+	st, ok := outer.Underlying().(*types.Struct)
+	if !ok || depth == 0 {
+		return false
+	}
+	for i := 0; i < st.NumFields(); i++ {
+		fl := st.Field(i)
+		if !fl.Embedded() {
+			continue
+		}
+		t := fl.Type()
+		if p, isP := t.Underlying().(*types.Pointer); isP {
+			t = p.Elem()
+		}
+		if n, isN := t.(*types.Named); isN && (n.Obj() == inner.Obj() || embeds(n, inner, depth-1)) {
+			return true
+		}
+	}
+	return false
 }
 
 // ErrorResultIndex returns the index of the last result of type error, or -1.
